@@ -357,8 +357,11 @@ def _tree_to_sbml(
     return _handle_body(tree.body)
 
 
-def _sbmlify_fn(fn: Callable, user_args: list[str]) -> libsbml.ASTNode:
-    return _tree_to_sbml(get_fn_ast(fn), args=user_args)
+def _sbmlify_fn(
+    fn: Callable, user_args: list[str], ids: dict[str, str]
+) -> libsbml.ASTNode:
+    # Inside math a component is referred to by the id it is declared with
+    return _tree_to_sbml(get_fn_ast(fn), args=[ids.get(i, i) for i in user_args])
 
 
 ##########################################################################
@@ -377,6 +380,20 @@ def _convert_id_to_sbml(id_: str, prefix: str) -> str:
     if not new_id[0].isalpha():
         return f"{prefix}_{new_id}"
     return new_id
+
+
+def _sbml_ids(model: Model) -> dict[str, str]:
+    """The id every component of the model is declared with in the document."""
+    ids = {}
+    for name in model.get_raw_parameters():
+        ids[name] = _convert_id_to_sbml(id_=name, prefix="PAR")
+    for name in model.get_raw_variables():
+        ids[name] = _convert_id_to_sbml(id_=name, prefix="CPD")
+    for name in model.get_raw_derived():
+        ids[name] = _convert_id_to_sbml(id_=name, prefix="AR")
+    for name in model.get_raw_reactions():
+        ids[name] = _convert_id_to_sbml(id_=name, prefix="RXN")
+    return ids
 
 
 def _create_sbml_document() -> libsbml.SBMLDocument:
@@ -471,6 +488,7 @@ def _create_sbml_variables(
     model: Model,
     sbml_model: libsbml.Model,
     compartments: dict[str, Compartment],
+    ids: dict[str, str],
 ) -> None:
     """Create the variables for the sbml model.
 
@@ -504,19 +522,21 @@ def _create_sbml_variables(
             ar = sbml_model.createInitialAssignment()
             ar.setId(_convert_id_to_sbml(id_=name, prefix="IA"))
             ar.setName(_convert_id_to_sbml(id_=name, prefix="IA"))
-            ar.setSymbol(_convert_id_to_sbml(id_=name, prefix="IA"))
-            ar.setMath(_sbmlify_fn(init.fn, init.args))
+            ar.setSymbol(ids[name])
+            ar.setMath(_sbmlify_fn(init.fn, init.args, ids))
         else:
             cpd.setInitialAmount(float(init))
 
 
-def _create_sbml_derived_variables(*, model: Model, sbml_model: libsbml.Model) -> None:
+def _create_sbml_derived_variables(
+    *, model: Model, sbml_model: libsbml.Model, ids: dict[str, str]
+) -> None:
     for name, dv in model.get_derived_variables().items():
         sbml_ar = sbml_model.createAssignmentRule()
         sbml_ar.setId(_convert_id_to_sbml(id_=name, prefix="AR"))
         sbml_ar.setName(_convert_id_to_sbml(id_=name, prefix="AR"))
         sbml_ar.setVariable(_convert_id_to_sbml(id_=name, prefix="AR"))
-        sbml_ar.setMath(_sbmlify_fn(dv.fn, dv.args))
+        sbml_ar.setMath(_sbmlify_fn(dv.fn, dv.args, ids))
         # cpd.setUnit() # FIXME: implement
 
 
@@ -524,13 +544,14 @@ def _create_derived_parameter(
     sbml_model: libsbml.Model,
     name: str,
     dp: Derived,
+    ids: dict[str, str],
 ) -> None:
     """Create a derived parameter for the sbml model."""
     ar = sbml_model.createAssignmentRule()
     ar.setId(_convert_id_to_sbml(id_=name, prefix="AR"))
     ar.setName(_convert_id_to_sbml(id_=name, prefix="AR"))
     ar.setVariable(_convert_id_to_sbml(id_=name, prefix="AR"))
-    ar.setMath(_sbmlify_fn(dp.fn, dp.args))
+    ar.setMath(_sbmlify_fn(dp.fn, dp.args, ids))
     # cpd.setUnit() # FIXME: implement
 
 
@@ -538,6 +559,7 @@ def _create_sbml_parameters(
     *,
     model: Model,
     sbml_model: libsbml.Model,
+    ids: dict[str, str],
 ) -> None:
     """Create the parameters for the sbml model.
 
@@ -555,15 +577,17 @@ def _create_sbml_parameters(
             ar = sbml_model.createInitialAssignment()
             ar.setId(_convert_id_to_sbml(id_=name, prefix="IA"))
             ar.setName(_convert_id_to_sbml(id_=name, prefix="IA"))
-            ar.setSymbol(_convert_id_to_sbml(id_=name, prefix="IA"))
-            ar.setMath(_sbmlify_fn(init.fn, init.args))
+            ar.setSymbol(ids[name])
+            ar.setMath(_sbmlify_fn(init.fn, init.args, ids))
         else:
             k.setValue(float(init))
 
 
-def _create_sbml_derived_parameters(*, model: Model, sbml_model: libsbml.Model) -> None:
+def _create_sbml_derived_parameters(
+    *, model: Model, sbml_model: libsbml.Model, ids: dict[str, str]
+) -> None:
     for name, dp in model.get_derived_parameters().items():
-        _create_derived_parameter(sbml_model, name, dp)
+        _create_derived_parameter(sbml_model, name, dp, ids)
 
 
 def _free_reference(name: str, taken: set[str]) -> str:
@@ -578,6 +602,7 @@ def _create_sbml_reactions(
     *,
     model: Model,
     sbml_model: libsbml.Model,
+    ids: dict[str, str],
 ) -> None:
     """Create the reactions for the sbml model."""
     # Names of the model components and of the species references written so far.
@@ -604,13 +629,14 @@ def _create_sbml_reactions(
                     # SBML uses species references for derived stoichiometries
                     # So we need to create a assignment rule and then refer to it
                     reference = _free_reference(f"{compound_id}ref", taken)
-                    _create_derived_parameter(sbml_model, reference, factor)
+                    _create_derived_parameter(sbml_model, reference, factor, ids)
 
                     # The sign of a computed coefficient is only known at run time.
                     # A product keeps the value of the rule as it is, a reactant
                     # would negate it.
                     sref = sbml_rxn.createProduct()
-                    sref.setId(_convert_id_to_sbml(id_=reference, prefix="CPD"))
+                    # the id the assignment rule above gives the coefficient
+                    sref.setId(_convert_id_to_sbml(id_=reference, prefix="AR"))
                     sref.setSpecies(_convert_id_to_sbml(id_=compound_id, prefix="CPD"))
                 case _:
                     msg = f"Stoichiometry type {type(factor)} not supported"
@@ -619,7 +645,7 @@ def _create_sbml_reactions(
             sref = sbml_rxn.createModifier()
             sref.setSpecies(_convert_id_to_sbml(id_=compound_id, prefix="CPD"))
 
-        sbml_rxn.createKineticLaw().setMath(_sbmlify_fn(rxn.fn, rxn.args))
+        sbml_rxn.createKineticLaw().setMath(_sbmlify_fn(rxn.fn, rxn.args, ids))
 
 
 def _model_to_sbml(
@@ -644,13 +670,14 @@ def _model_to_sbml(
     _create_sbml_units(units=units, sbml_model=sbml_model)
     _create_sbml_compartments(compartments=compartments, sbml_model=sbml_model)
     # Actual model components
-    _create_sbml_parameters(model=model, sbml_model=sbml_model)
-    _create_sbml_derived_parameters(model=model, sbml_model=sbml_model)
+    ids = _sbml_ids(model)
+    _create_sbml_parameters(model=model, sbml_model=sbml_model, ids=ids)
+    _create_sbml_derived_parameters(model=model, sbml_model=sbml_model, ids=ids)
     _create_sbml_variables(
-        model=model, sbml_model=sbml_model, compartments=compartments
+        model=model, sbml_model=sbml_model, compartments=compartments, ids=ids
     )
-    _create_sbml_derived_variables(model=model, sbml_model=sbml_model)
-    _create_sbml_reactions(model=model, sbml_model=sbml_model)
+    _create_sbml_derived_variables(model=model, sbml_model=sbml_model, ids=ids)
+    _create_sbml_reactions(model=model, sbml_model=sbml_model, ids=ids)
     return doc
 
 
